@@ -53,6 +53,15 @@ def jobs(ctx):
                 if m:
                     ov["FinalTimeEndOfRunEventHandler"]["output_handler"] = m.group(1)
             js.append((c, ov))
+    # sampling intervals that are long compared with the time between events: units are activated and stopped
+    # again between two consecutive samples (a state handed to the output handler from a stale cache shows them
+    # where they were before)
+    for c in cfgs:
+        if c.endswith("coulomb_atoms/power_bounded.ini") or c.endswith("dipoles/atom_factors.ini"):
+            js.append((c, {"FixedIntervalSamplingEventHandler": {"sampling_interval": 1.7},
+                           "FinalTimeEndOfRunEventHandler": {"end_of_run_time": 400.0},
+                           # the tracer itself must not extract the global state at every leg here (observer effect)
+                           "_tracer": {"light": True}}))
     # two fixed-interval sampling taggers with different intervals and different output handlers
     two = "config_files/2018_JCP_149_064113/coulomb_atoms/power_bounded.ini"
     if two in cfgs:
